@@ -1151,6 +1151,9 @@ fn sample_cases(seed: u64, n: usize, max_ops: usize) -> Vec<Case> {
 pub struct C01;
 
 impl Check for C01 {
+    fn stall_secs(_tier: Tier) -> Option<u64> {
+        Some(600)
+    }
     type Case = Case;
     const ID: &'static str = "C01";
     fn rule() -> String {
